@@ -27,7 +27,7 @@ BASE = {
         "open": 7, "add": 8, "close": 5, "drop": 2.5, "reconnect": 3, "ping": 0.7,
         "adv_small": 4, "adv_min": 2, "adv_sweep": 1.5, "adv_phase": 0.7, "adv_long": 0.4,
         "restart": 0.8, "kill": 0.3, "bad": 0.8, "stall": 0.2, "jump": 0.0, "dbfault": 0.0,
-        "persona": 1.5, "bulk": 0.0, "third": 0.5, "resend": 1.0, "split": 0.2, "idle_sub": 0.2,
+        "persona": 1.5, "bulk": 0.0, "third": 0.5, "resend": 1.0, "split": 0.2, "idle_sub": 0.2, "late_claim": 0.1,
     },
 }
 
@@ -47,8 +47,8 @@ PROFILES = {
                       "restart": 1.5, "kill": 0.6, "close": 6}),
     "C02": profile(nsides=(2, 3), autoping_p=0.4, names=2, literal_ids=1, napps=(1, 2), share_ids_p=0.06, unicode_p=0.25,
                    w={"add": 14, "open": 10, "connect": 10, "adv_sweep": 3, "restart": 2.0, "kill": 0.6,
-                      "stall": 0.6, "reconnect": 5, "close": 3, "release": 2, "persona": 1, "split": 2.0}),
-    "C03": profile(names=3, w={"claim": 14, "allocate": 4, "release": 8, "restart": 1.5, "reconnect": 4,
+                      "stall": 0.6, "reconnect": 5, "close": 3, "release": 2, "persona": 1, "split": 2.0, "late_claim": 0.7}),
+    "C03": profile(names=3, w={"claim": 14, "allocate": 4, "release": 8, "restart": 1.5, "reconnect": 4, "late_claim": 2.0,
                                "resend": 3, "close": 5, "adv_long": 0.8, "add": 3}),
     "C04": profile(allow_list_p=0.5, choice_modes=["faithful", "min", "max", "keyed"],
                    randrange_modes=["faithful", "collide"], steps=(6, 30), names=6,
@@ -68,7 +68,7 @@ PROFILES = {
     "C09": profile(usage_p=0.6, w={"persona": 3, "adv_sweep": 2, "bad": 1.5, "idle_sub": 1.0}),
     "C12": profile(autoping_p=0.5, steps=(12, 50), names=3,
                    w={"adv_phase": 5, "adv_sweep": 5, "adv_min": 4, "adv_long": 1.5, "stall": 0.8, "add": 8,
-                      "open": 8, "restart": 1.0, "kill": 0.4, "drop": 3, "jump": 0.3, "close": 2, "release": 2, "split": 1.0, "idle_sub": 1.0}),
+                      "open": 8, "restart": 1.0, "kill": 0.4, "drop": 3, "jump": 0.3, "close": 2, "release": 2, "split": 1.0, "idle_sub": 1.0, "late_claim": 1.0}),
     "C13": profile(quiesce_p=1.0, steps=(8, 40), jumps=[0.5, 30.0, 700.0, 3600.0], share_ids_p=0.08,
                    w={"dbfault": 0.8, "jump": 0.3, "adv_sweep": 2.5, "adv_long": 1.0, "third": 1.5, "reconnect": 4, "resend": 2,
                       "drop": 4, "close": 6}),
@@ -483,6 +483,27 @@ class Gen(object):
             out += self.a_close(a)
         return out
 
+    def a_late_claim(self):
+        """a receiver that binds while its user types the code: bind, a sweep passes,
+        then claim and open, a long wait, and the partner claims the same nameplate"""
+        r = self.rng
+        app = r.choice(self.apps)
+        s1, s2 = r.sample(self.sides, 2) if len(self.sides) >= 2 else (self.sides[0], self.sides[0])
+        x, out = self.a_connect(app=app, side=s1)
+        out.append({"op": "advance", "to": "sweep", "eps": r.choice([0.5, 20.0])})
+        name = self.name_for(x)
+        out += self.a_claim(x, name)
+        out += self.a_open(x, {"ref": "claimed", "c": x.id})
+        if r.random() < 0.5:
+            out += self.a_add(x)
+        out.append({"op": "advance", "dt": round(r.uniform(30, 1500), 3)})
+        y, o2 = self.a_connect(app=app, side=s2)
+        out += o2
+        out += self.a_claim(y, name)
+        out += self.a_open(y, {"ref": "claimed", "c": y.id})
+        out += self.a_add(y)
+        return out
+
     def a_third(self):
         """a further side arrives at something two sides share"""
         cands = [c for c in self.bound() if c.opened is not None or c.claimed is not None]
@@ -566,6 +587,7 @@ class Gen(object):
             acts.append(("third", w["third"]))
             acts.append(("split", w.get("split", 0)))
             acts.append(("idle_sub", w.get("idle_sub", 0)))
+            acts.append(("late_claim", w.get("late_claim", 0)))
             dead = [c for c in self.conns.values() if not c.alive and c.app is not None]
             if dead:
                 acts.append(("reconnect", w["reconnect"]))
@@ -601,6 +623,8 @@ class Gen(object):
             return self.a_split()
         if a == "idle_sub":
             return self.a_idle_sub()
+        if a == "late_claim":
+            return self.a_late_claim()
         if a in ("reconnect", "resend"):
             dead = [c for c in self.conns.values() if not c.alive and c.app is not None]
             return self.a_reconnect(r.choice(dead), resend=(a == "resend"))
